@@ -533,7 +533,10 @@ func VerifyDiffProof(actions []RPCWriteAction, numLeaves uint64, treeHashes, lea
 		}
 		insertRange(start, numLeaves)
 
-		return acc.root() == root && len(treeHashes) == 0
+		// all of the proof must be consumed, and it must cover exactly
+		// numLeaves leaves; otherwise a subtree hash could be inserted at the
+		// wrong height
+		return acc.root() == root && len(treeHashes) == 0 && acc.numLeaves == numLeaves
 	}
 
 	// first use the original proof to construct oldRoot
